@@ -1,5 +1,156 @@
-(** C05 -- placeholder while the proofs are being built. *)
-From Verif Require Import C05.Model.
-Example C05_placeholder : py_eq VNil VNil = true.
-Proof. reflexivity. Qed.
-Print Assumptions C05_placeholder.
+(** C05 -- equality is an equivalence that hashing and lookup respect.
+    This file contains only statements, each closed by [exact], and Print Assumptions.
+
+    [equals] is runtime.equals, i.e. core [=] on two arguments; [py_eq] is Python's [==] as
+    the repo's [__eq__] methods instantiate it; [hash_of] the symbolic hash; [lookup] /
+    [contains] the find-by-hash-then-== of immutables.Map; [wf] = the value can be built
+    (map keys / set members pairwise distinct for the map itself). *)
+From Coq Require Import List Bool ZArith QArith NArith.
+Import ListNotations.
+From Verif Require Import Common.ListX Gen.Tables C05.Model C05.Spec C05.Unfold C05.Lemmas C05.TableSpec
+  C05.Proofs C05.Refuted.
+
+(** Obligations on the definitions regenerated from the source *)
+Theorem C05_table_eq_hash_classes : c05_eq_hash_classes = expected_eq_hash_classes.
+Proof. exact TableSpec.eq_hash_classes_ok. Qed.
+Theorem C05_table_hash_families : forallb (N.eqb 1) hash_families = true.
+Proof. exact TableSpec.hash_families_ok. Qed.
+Theorem C05_table_eq_shapes : forallb (N.eqb 1) eq_shapes = true.
+Proof. exact TableSpec.eq_shapes_ok. Qed.
+
+(** [=] is an equivalence, reflexive except for NaN *)
+Theorem C05_sym : forall x y, wf x = true -> wf y = true -> equals x y = equals y x.
+Proof. exact Proofs.equals_sym. Qed.
+Theorem C05_trans : forall x y z, wf x = true -> wf y = true -> wf z = true ->
+  equals x y = true -> equals y z = true -> equals x z = true.
+Proof. exact Proofs.equals_trans. Qed.
+Theorem C05_refl_except_nan : forall x, wf x = true -> has_nan x = false -> equals x x = true.
+Proof. exact Proofs.equals_refl. Qed.
+Theorem C05_nan_never_equal : forall k y, equals (VNum k NaN) y = false /\ equals y (VNum k NaN) = false.
+Proof. exact Proofs.nan_never_equal. Qed.
+(** [a == b] evaluated as a.__eq__(b)-first or as b.__eq__(a)-first gives the same answer *)
+Theorem C05_operand_order_irrelevant : forall x y sw, wf x = true -> wf y = true -> eqd sw x y = py_eq x y.
+Proof. exact Proofs.eqd_flag. Qed.
+
+(** sequential collections of any two kinds: equal iff pairwise [==] in order *)
+Theorem C05_seq_eq_iff_pointwise : forall k la k' lb, wf (VSeq k la) = true -> wf (VSeq k' lb) = true ->
+  (equals (VSeq k la) (VSeq k' lb) = true <-> Forall2 (fun x y => py_eq x y = true) la lb).
+Proof. exact Proofs.seq_eq_iff. Qed.
+(** ... with the elements compared by [=] itself: refuted by [1] / (true), holds when no element is a boolean *)
+Theorem C05_seq_eq_iff_pointwise_refuted :
+  exists la lb, equals (VSeq KVec la) (VSeq KList lb) = true /\ ~ Forall2 (fun x y => equals x y = true) la lb.
+Proof. exact Refuted.seq_eq_iff_pointwise_refuted. Qed.
+Theorem C05_seq_eq_iff_pointwise_partial : forall k la k' lb,
+  wf (VSeq k la) = true -> wf (VSeq k' lb) = true ->
+  no_bool_elems la = true -> no_bool_elems lb = true ->
+  (equals (VSeq k la) (VSeq k' lb) = true <-> Forall2 (fun x y => equals x y = true) la lb).
+Proof. exact Refuted.seq_eq_iff_pointwise_partial. Qed.
+
+(** maps and sets: equal iff same size and every entry / member has an [==] one *)
+Theorem C05_map_eq_iff_entries : forall la lb, wf (VMap la) = true -> wf (VMap lb) = true ->
+  (equals (VMap la) (VMap lb) = true <->
+   length la = length lb /\
+   forall ka va, In (ka, va) la -> exists kb vb, In (kb, vb) lb /\ py_eq ka kb = true /\ py_eq va vb = true).
+Proof. exact Proofs.map_eq_iff_entries. Qed.
+Theorem C05_set_eq_iff_members : forall la lb, wf (VSet la) = true -> wf (VSet lb) = true ->
+  (equals (VSet la) (VSet lb) = true <->
+   length la = length lb /\ forall x, In x la -> exists y, In y lb /\ py_eq x y = true).
+Proof. exact Proofs.set_eq_iff_members. Qed.
+Theorem C05_map_eq_iff_entries_refuted :
+  exists la lb, equals (VMap la) (VMap lb) = true /\
+    ~ (forall ka va, In (ka, va) la -> exists kb vb, In (kb, vb) lb /\ equals ka kb = true /\ equals va vb = true).
+Proof. exact Refuted.map_eq_iff_entries_refuted. Qed.
+Theorem C05_map_eq_iff_entries_partial : forall la lb,
+  wf (VMap la) = true -> wf (VMap lb) = true ->
+  no_bool_elems (elems la) = true -> no_bool_elems (elems lb) = true ->
+  (equals (VMap la) (VMap lb) = true <->
+   length la = length lb /\
+   forall ka va, In (ka, va) la -> exists kb vb, In (kb, vb) lb /\ equals ka kb = true /\ equals va vb = true).
+Proof. exact Refuted.map_eq_iff_entries_partial. Qed.
+
+(** equal values hash alike, and either finds the other *)
+Theorem C05_eq_hash : forall x y, wf x = true -> wf y = true -> equals x y = true -> hash_of x = hash_of y.
+Proof. exact Proofs.equals_hash. Qed.
+Theorem C05_seq_hash_kind_independent : forall k k' l, hash_of (VSeq k l) = hash_of (VSeq k' l).
+Proof. exact Proofs.seq_hash_kind_independent. Qed.
+Theorem C05_lookup_interchangeable : forall m x y,
+  (forall k v, In (k, v) m -> wf k = true) -> wf x = true -> wf y = true ->
+  equals x y = true -> lookup m x = lookup m y.
+Proof. exact Proofs.lookup_interchangeable. Qed.
+Theorem C05_contains_interchangeable : forall s x y,
+  (forall k, In k s -> wf k = true) -> wf x = true -> wf y = true ->
+  equals x y = true -> contains s x = contains s y.
+Proof. exact Proofs.contains_interchangeable. Qed.
+(** a key is found exactly by the probes that are [=] to it -- unless one of them is a boolean *)
+Theorem C05_lookup_finds_partial : forall k v x,
+  wf k = true -> wf x = true -> is_bool k = false -> is_bool x = false ->
+  (lookup [(k, v)] x = Some v <-> equals x k = true).
+Proof. exact Proofs.lookup_finds. Qed.
+Theorem C05_lookup_bool_refuted :
+  exists k x v, equals x k = false /\ lookup [(k, v)] x = Some v /\ contains [k] x = true.
+Proof. exact Refuted.lookup_bool_refuted. Qed.
+
+(** booleans and nil *)
+Theorem C05_bool_not_number : forall b k n,
+  equals (VBool b) (VNum k n) = false /\ equals (VNum k n) (VBool b) = false.
+Proof. exact Proofs.bool_not_number. Qed.
+Theorem C05_bool_only_itself : forall b y, equals (VBool b) y = true <-> y = VBool b.
+Proof. exact Proofs.bool_only_itself. Qed.
+Theorem C05_nil_only_itself : forall y, equals VNil y = true <-> y = VNil.
+Proof. exact Proofs.nil_only_itself. Qed.
+(** ... but not as elements of collections (F-05b): vectors, map values, set members *)
+Theorem C05_nested_bool_refuted :
+  exists x y, wf x = true /\ wf y = true /\ equals x y = true /\ ref_eq x y = false.
+Proof. exact Refuted.nested_bool_refuted. Qed.
+Theorem C05_nested_bool_map_refuted :
+  exists x y, wf x = true /\ wf y = true /\ equals x y = true /\ ref_eq x y = false.
+Proof. exact Refuted.nested_bool_map_refuted. Qed.
+Theorem C05_nested_bool_set_refuted :
+  exists x y, wf x = true /\ wf y = true /\ equals x y = true /\ ref_eq x y = false.
+Proof. exact Refuted.nested_bool_set_refuted. Qed.
+(** the model of the code IS the reference equality of Spec.v on values without booleans *)
+Theorem C05_agrees_with_reference_partial : forall x y,
+  wf x = true -> wf y = true -> has_bool x = false -> has_bool y = false -> equals x y = ref_eq x y.
+Proof. exact Refuted.agrees_with_reference_partial. Qed.
+
+(** non-vacuity: a vector, a lazy seq of a float and a decimal, and a queue holding a ratio
+    are well-formed, pairwise [=], hash alike and find each other (also nested in maps/sets) *)
+Example C05_nonvacuous :
+  let v := VSeq KVec [one; two] in
+  let l := VSeq KLazy [VNum KFloat (Fin 1); VNum KDec (Fin (4 # 2))] in
+  let q := VSeq KQueue [VNum KRatio (Fin (2 # 2)); two] in
+  wf v = true /\ wf l = true /\ wf q = true /\
+  equals v l = true /\ equals l q = true /\ equals v q = true /\ equals q v = true /\
+  hash_of v = hash_of l /\ hash_of l = hash_of q /\
+  lookup [(v, kw_a)] q = Some kw_a /\ contains [VMap [(l, VSet [one])]] (VMap [(q, VSet [VNum KFloat (Fin 1)])]) = true.
+Proof. exact Refuted.ex_values. Qed.
+
+Print Assumptions C05_table_eq_hash_classes.
+Print Assumptions C05_table_hash_families.
+Print Assumptions C05_table_eq_shapes.
+Print Assumptions C05_sym.
+Print Assumptions C05_trans.
+Print Assumptions C05_refl_except_nan.
+Print Assumptions C05_nan_never_equal.
+Print Assumptions C05_operand_order_irrelevant.
+Print Assumptions C05_seq_eq_iff_pointwise.
+Print Assumptions C05_seq_eq_iff_pointwise_refuted.
+Print Assumptions C05_seq_eq_iff_pointwise_partial.
+Print Assumptions C05_map_eq_iff_entries.
+Print Assumptions C05_set_eq_iff_members.
+Print Assumptions C05_map_eq_iff_entries_refuted.
+Print Assumptions C05_map_eq_iff_entries_partial.
+Print Assumptions C05_eq_hash.
+Print Assumptions C05_seq_hash_kind_independent.
+Print Assumptions C05_lookup_interchangeable.
+Print Assumptions C05_contains_interchangeable.
+Print Assumptions C05_lookup_finds_partial.
+Print Assumptions C05_lookup_bool_refuted.
+Print Assumptions C05_bool_not_number.
+Print Assumptions C05_bool_only_itself.
+Print Assumptions C05_nil_only_itself.
+Print Assumptions C05_nested_bool_refuted.
+Print Assumptions C05_nested_bool_map_refuted.
+Print Assumptions C05_nested_bool_set_refuted.
+Print Assumptions C05_agrees_with_reference_partial.
+Print Assumptions C05_nonvacuous.
